@@ -39,6 +39,7 @@ import types as _types
 CTX = {"nn": None, "v": "val", "n": 3, "xs": [1, 2], "d": {"a": 1, "b": 2}, "s": "a b", "e": "", "t": True, "d2": {"b": 9, "c": 3}, "xs2": ["x"], "name": "N",
        "mp": _types.MappingProxyType({"p": 1, "q": "z"}), "cm": _collections.ChainMap({"r": 2})}
 HOLDER: List[Any] = []
+HOLDER_ORIG = HOLDER
 
 # --- AST -------------------------------------------------------------------------------------------
 
@@ -489,6 +490,74 @@ def run(tier: str) -> int:
                     break
         if stop:
             break
+    # the same compiled tag rendered again after the receiver changed what it was given in place: the values a tag hands
+    # over on one render must not depend on what a receiver did with those of an earlier render (seeded/C02-4)
+    def fresh_ctx():
+        c = {k: (list(v) if isinstance(v, list) else dict(v) if isinstance(v, dict) else v) for k, v in CTX.items()}
+        c["loop2_"] = (0, 1)
+        return Context(c)
+
+    def scribble(x, depth=0):
+        if depth > 6:
+            return
+        if isinstance(x, list):
+            for y in list(x):
+                scribble(y, depth + 1)
+            x.append("__scribbled__")
+        elif isinstance(x, dict):
+            for y in list(x.values()):
+                scribble(y, depth + 1)
+            x["__scribbled__"] = 1
+
+    if not stop:
+        for args, expected, prints in cases[: (300 if tier == "quick" else 6000)]:
+            src = "{% c02probe " + prints[0] + " %}"
+            looped = "{% for _i in loop2_ %}{% c02probe " + prints[0] + " %}{% endfor %}"
+            exp = {"args": [canon(a) for a in expected[0]], "kwargs": canon_sorted(canon(expected[1])), "flags": expected[2]}
+            for variant, text in (("again", src), ("loop", looped)):
+                ch.count("rerender", 1, 1)
+                try:
+                    t = Template(text)
+                    seen = []
+                    if variant == "again":
+                        for _ in range(2):
+                            HOLDER.clear()
+                            t.render(fresh_ctx())
+                            got = HOLDER[-1]
+                            seen.append({"args": [canon(a) for a in got[0]], "kwargs": canon_sorted(canon(got[1])), "flags": got[2]})
+                            scribble(got[0]); scribble(got[1])
+                    else:
+                        HOLDER.clear()
+
+                        class _Scribbling(list):
+                            def append(self, item):       # the receiver changes its arguments as soon as it has them
+                                seen.append({"args": [canon(a) for a in item[0]], "kwargs": canon_sorted(canon(item[1])), "flags": item[2]})
+                                scribble(item[0]); scribble(item[1])
+                                super().append(item)
+                        saved = list(HOLDER)
+                        hold = _Scribbling()
+                        globals()["HOLDER"] = hold
+                        try:
+                            ProbeNode.render.__globals__["HOLDER"] = hold
+                            c = fresh_ctx()
+                            t.render(c)
+                        finally:
+                            ProbeNode.render.__globals__["HOLDER"] = HOLDER_ORIG
+                            globals()["HOLDER"] = HOLDER_ORIG
+                    bad = [i for i, sv in enumerate(seen) if sv != exp]
+                except Exception as e:  # noqa
+                    seen, bad = [{"err": type(e).__name__, "msg": str(e)[:100]}], [0]
+                if variant == "loop" and any(v in json.dumps(args) for v in ('"xs', '"d"', '"d.', '"d2', '"xs2', '...')):
+                    continue          # within one render the Context's own lists / dicts are shared with the receiver
+                if bad:
+                    ch.violation("impl-violates-spec", "rerender", {"args_ast": args, "template": text, "variant": variant},
+                                 impl={"received_on_each_render": seen}, spec={"expected_every_time": exp, "clause":
+                                 "the receiver gets the values the arguments denote on every render of the tag, whatever an earlier receiver did with its copy"})
+                    stop = True
+                    break
+                ch.nontrivial(("rerender", variant, text))
+            if stop:
+                break
     # through a real component (no flags other than `only`)
     if not stop:
         for args, expected, prints in cases[: (150 if tier == "quick" else 3000)]:
